@@ -60,7 +60,7 @@ CHECKS = {
  "C18": ("cross-configuration differential: one proptest-generated corpus replayed by vdigest built in {O0,O3} x {checks on,off} x {optional features (serde; rand_jitter std+log) on,off}",
          "6900 (thorough 69000) generated cases over all generator types, cores and scripted JitterRng replayed in 4 (8) build configurations; digests must agree line by line; a disagreement is delta-debugged with the two binaries as oracle.",
          "Only x86-64 is buildable here.", "6/C18"),
- "C19": ("PBT (proptest) with a harness-owned scheduler over real OS threads + unsynchronised parallel runs + fresh-process solo and scenario traces (JitterRng through its whole API incl. rejected timers) + enumerated 1-/2-bit seed pairs + same-key constructor pairs, cross-type pairs, nested and barrier-synchronised parallel construction + compiled Send/Sync probe",
+ "C19": ("PBT (proptest) with a harness-owned scheduler over real OS threads + unsynchronised parallel runs + fresh-process solo and scenario traces (JitterRng through its whole API incl. rejected timers) + enumerated 1-/2-bit seed pairs + same-key constructor pairs, cross-type pairs, nested and barrier-synchronised parallel construction + jump-heavy same-type histories (also against an opt-level-0 build of the crates) + compiled Send/Sync probe",
          "Generated multi-instance scenarios with generated interleavings and thread migrations; every instance's trace must equal its solo replay before and after; free-running parallel groups; static Send+Sync assertions compiled against the tree.",
          "Interleavings inside one operation are not enumerated; JITTER_ROUNDS is outside the deterministic oracle.", "4/C19"),
 }
